@@ -45,7 +45,7 @@ Definition cancel_wait_lock (s : db) (conn : N) (c : cmd) : db * list event * op
       let s := bump (fun n => n <| n_unlock := (n_unlock n + 1)%Z |>) s in
       let d := data_of s k in
       (s, ev1 ++ [reply conn c R_LOCKED_ERROR lcount lrc d; reply wconn wcmd R_UNLOCK_ERROR lcount lrc d],
-       if 0 <? depth then Some (mkWake k None) else None)
+       Some (mkWake k None))
   end.
 
 (* ---------------------------------------------------------------- UnLock *)
@@ -246,8 +246,7 @@ Definition do_timeout (s : db) (r : ref) : db * list event * option wake :=
     let s := unref s r in
     let s := if match aget (store s) r with None => true | Some _ => false end then remove_mgr_if_unref s k else s in
     let s := bump (fun n => n <| n_timeouted := (n_timeouted n + 1)%Z |>) s in
-    (s, ev1 ++ [reply (l_conn l) c R_TIMEOUT (m_locked (getm s k)) lrc (data_of s k)],
-     if 0 <? depth then Some (mkWake k None) else None)
+    (s, ev1 ++ [reply (l_conn l) c R_TIMEOUT (m_locked (getm s k)) lrc (data_of s k)], Some (mkWake k None))
   end.
 
 (* ---------------------------------------------------------------- doExpried *)
